@@ -88,6 +88,13 @@ ForNodes(C, P(_), F(_)) ==
 
 SumKidsObs(C, f, n) == RSumSeq([i \in 1..Len(C.kids[n]) |-> f[C.kids[n][i]]])
 
+\* securities whose exact budget was minus their value but which were sized by
+\* the ordinary rule (known finding K4)
+IsK4(C, s, e) ==
+  /\ e[1] = "C05.sizing" /\ e[2] = "ok" /\ s.t > 0 /\ ~Bad(e[4]) /\ ~IsZero(e[4])
+  /\ RAdd(e[4], SecVal(C, s, e[3])) = Zero /\ e[5] # RNeg(s.pos[e[3]])
+K4Nodes(C, s, r) == {r.chk[i][3] : i \in {j \in 1..Len(r.chk) : IsK4(C, s, r.chk[j])}}
+
 Judge(C, s, ev, r, prevchk) ==
   LET post == r.st
       D    == C.D
@@ -96,10 +103,7 @@ Judge(C, s, ev, r, prevchk) ==
                  LAMBDA n : <<"C07.cash", n, ChkEq(ev.cash[n], post.cash[n], D)>>)
         \o [i \in 1..Len(r.chk) |->
               <<r.chk[i][1], r.chk[i][3],
-                IF r.chk[i][1] = "C05.sizing" /\ r.chk[i][2] = "ok" /\ s.t > 0
-                   /\ ~Bad(r.chk[i][4]) /\ ~IsZero(r.chk[i][4])
-                   /\ RAdd(r.chk[i][4], SecVal(C, s, r.chk[i][3])) = Zero
-                   /\ r.chk[i][5] # RNeg(s.pos[r.chk[i][3]]) THEN "K4"
+                IF IsK4(C, s, r.chk[i]) THEN "K4"
                 ELSE IF r.chk[i][2] # "fail" \/ r.chk[i][1] # "C05.sizing" THEN r.chk[i][2]
                 ELSE LET k == KF_C05(C, s, r.chk[i][3], r.chk[i][4], r.chk[i][5], FALSE)
                      IN  IF k = "none" THEN "fail" ELSE k>>]
@@ -187,7 +191,9 @@ Judge(C, s, ev, r, prevchk) ==
             THEN <<<<"C08.idempotent", 1, ChkBool(ev.same)>>>> ELSE <<>>)
         \* C16
         \o (IF post.bankrupt THEN ForNodes(C, LAMBDA n : IsSec(C, n),
-                 LAMBDA n : <<"C16.liquidated", n, ChkBool(IsZero(ev.pos[n]))>>) ELSE <<>>)
+                 LAMBDA n : <<"C16.liquidated", n,
+                    IF IsZero(ev.pos[n]) THEN "ok" ELSE IF n \in K4Nodes(C, s, r) THEN "K4" ELSE "fail">>)
+            ELSE <<>>)
         \* C17: notional per node kind, notional weights, coupons and carry
         \o ForNodes(C, LAMBDA n : TRUE,
                  LAMBDA n : <<"C17.notional", n, ChkEq(ev.notl[n], Notl(C, post, n), D)>>)
